@@ -14,12 +14,12 @@ package core
 
 // ---- representation invariants -------------------------------------------------
 
-// TInv0: Data/SortedKeys agree (T1-T3), stored items are distinct allocated maps (T5)
+// TInv0: Data/SortedKeys agree (T1-T3), stored items are allocated maps. (Stored item maps are never
+// mutated in place - writes replace them - so no distinctness invariant between them is needed.)
 //@ pred TInv0(t *Table) :=
 //@   t != nil && t.Data != nil && allocated(t.Data) &&
 //@   sorted(t.SortedKeys) && bag(t.SortedKeys) == ind(dom(t.Data)) && allocated(t.SortedKeys) &&
-//@   (forall k string :: {t.Data[k]} k in t.Data ==> t.Data[k] != nil && allocated(t.Data[k])) &&
-//@   (forall k1 string, k2 string :: {t.Data[k1], t.Data[k2]} k1 in t.Data && k2 in t.Data && k1 != k2 ==> t.Data[k1] != t.Data[k2])
+//@   (forall k string :: {t.Data[k]} k in t.Data ==> t.Data[k] != nil && allocated(t.Data[k]))
 
 // IWf: an index's sortedKeys is the sorted multiset of the values of refs (I1, I4)
 //@ pred IWf(i *index) :=
@@ -76,7 +76,6 @@ package core
 
 //@ func (*Table).setItem
 //@   requires TInv0(t) && item != nil && allocated(item)
-//@   requires forall k string :: {t.Data[k]} k in t.Data && k != key ==> t.Data[k] != item
 //@   modifies t.SortedKeys, t.Data[*], t.SortedKeys[*]
 //@   ensures TInv0(t)
 //@   ensures arr(t.SortedKeys) == old(arr(t.SortedKeys)) || fresh(arr(t.SortedKeys))
@@ -136,7 +135,7 @@ package core
 //@ func (*index).delete
 //@   requires IWf(i) && i.Table != nil
 //@   modifies i.refs[*], i.sortedKeys, i.sortedKeys[*]
-//@   ensures IWf(i)
+//@   ensures IWf(i) && result == nil
 //@   ensures arr(i.sortedKeys) == old(arr(i.sortedKeys))
 //@   ensures[C03] dom(i.refs) == without(old(dom(i.refs)), key)
 //@   ensures[C03] forall k string :: {i.refs[k]} k != key ==> i.refs[k] == old(i.refs[k])
@@ -153,10 +152,7 @@ package core
 
 //@ func (*Table).Put
 //@   requires TInv(t) && input != nil && allocated(input) && allocated(input.Item)
-//@   modifies t.SortedKeys, t.Data[*], t.SortedKeys[*],
-//@            forall n string :: n in t.Indexes ==> t.Indexes[n].refs[*],
-//@            forall n string :: n in t.Indexes ==> t.Indexes[n].sortedKeys,
-//@            forall n string :: n in t.Indexes ==> t.Indexes[n].sortedKeys[*]
+//@   modifies t.SortedKeys, t.Data[*], maps("map[string]string"), arrays("string"), fields("index", "sortedKeys")
 //@   ensures[C01,C03] TInv(t)
 //@   ensures[C01] result1 == nil ==> dom(t.Data) == with(old(dom(t.Data)), old(KeyOf(t, input.Item)))
 //@   ensures[C01] result1 == nil ==> fresh(t.Data[old(KeyOf(t, input.Item))]) && content(t.Data[old(KeyOf(t, input.Item))]) == old(content(input.Item))
@@ -173,7 +169,7 @@ package core
 //@                old(CondHolds(t, input.ConditionExpression, input.ExpressionAttributeValues, input.ExpressionAttributeNames, KeyOf(t, input.Item)))
 //@   aborts[C08] dom(t.Data) == old(dom(t.Data)) && vals(t.Data) == old(vals(t.Data)) && t.SortedKeys == old(t.SortedKeys) && seq(t.SortedKeys) == old(seq(t.SortedKeys))
 //@   loop 1:
-//@     invariant TInv0(t) && IOwn(t)
+//@     invariant TInv0(t) && IOwn(t) && content(t.AttributesDef) == old(content(t.AttributesDef))
 //@     invariant old(KeyOf(t, input.Item)) in t.Data && t.Data[old(KeyOf(t, input.Item))] == item
 //@     invariant forall n string :: {t.Indexes[n]} n in t.Indexes ==> arr(t.Indexes[n].sortedKeys) == old(arr(t.Indexes[n].sortedKeys)) || fresh(arr(t.Indexes[n].sortedKeys))
 //@     invariant forall n string :: {t.Indexes[n]} n in t.Indexes ==> IWf(t.Indexes[n])
@@ -183,3 +179,46 @@ package core
 //@     invariant input.ConditionExpression != nil && *input.ConditionExpression != "" ==>
 //@               old(CondHolds(t, input.ConditionExpression, input.ExpressionAttributeValues, input.ExpressionAttributeNames, KeyOf(t, input.Item)))
 //@     invariant nth(old(t.KeySchema.GetKey(t.AttributesDef, input.Item)), 1) == nil
+
+// StrDeref: the map[string]string view of a map[string]*string (types.StringValue of every entry)
+//@ smt (declare-fun strDeref ((Array Str Int) (Array Int Str)) (Array Str Str))
+//@ smt (assert (forall ((v (Array Str Int)) (h (Array Int Str)) (k Str)) (! (= (select (strDeref v h) k) (ite (= (select v k) 0) str_empty (select h (select v k)))) :pattern ((select (strDeref v h) k)) :qid strDeref_def)))
+
+//@ pred CondHoldsD(t *Table, cond *string, values map[string]*types.Item, names map[string]*string, k string) :=
+//@   matchSpec(t.Name, *cond, "conditional", (k in t.Data ? dom(t.Data[k]) : emptyset("string")), (k in t.Data ? vals(t.Data[k]) : emptyvals("map[string]*types.Item")), dom(values), vals(values), dom(names), strDeref(vals(names), heapOf("P$string")))
+
+//@ pred Unchanged(t *Table) :=
+//@   dom(t.Data) == old(dom(t.Data)) && vals(t.Data) == old(vals(t.Data)) &&
+//@   t.SortedKeys == old(t.SortedKeys) && seq(t.SortedKeys) == old(seq(t.SortedKeys)) &&
+//@   forall n string :: {t.Indexes[n]} n in t.Indexes ==> content(t.Indexes[n].refs) == old(content(t.Indexes[n].refs)) &&
+//@        t.Indexes[n].sortedKeys == old(t.Indexes[n].sortedKeys) && seq(t.Indexes[n].sortedKeys) == old(seq(t.Indexes[n].sortedKeys))
+
+//@ func (*Table).Delete
+//@   requires TInv(t) && input != nil
+//@   modifies t.SortedKeys, t.Data[*], maps("map[string]string"), arrays("string"), fields("index", "sortedKeys")
+//@   ensures[C01,C03] TInv(t)
+//@   ensures[C01] result1 == nil && !(old(KeyOf(t, input.Key)) in old(dom(t.Data))) ==> Unchanged(t) && len(result0) == 0
+//@   ensures[C01] result1 == nil && old(KeyOf(t, input.Key)) in old(dom(t.Data)) ==>
+//@                dom(t.Data) == without(old(dom(t.Data)), old(KeyOf(t, input.Key))) &&
+//@                fresh(result0) && content(result0) == old(content(t.Data[KeyOf(t, input.Key)]))
+//@   ensures[C01] forall k string :: {t.Data[k]} k != old(KeyOf(t, input.Key)) ==> t.Data[k] == old(t.Data[k])
+//@   ensures[C08] result1 != nil ==> Unchanged(t)
+//@   ensures[C13] nth(old(t.KeySchema.GetKey(t.AttributesDef, input.Key)), 1) != nil ==> result1 != nil
+//@   ensures[C05] input.ConditionExpression != nil && *input.ConditionExpression != "" && nth(old(t.KeySchema.GetKey(t.AttributesDef, input.Key)), 1) == nil &&
+//@                !old(CondHoldsD(t, input.ConditionExpression, input.ExpressionAttributeValues, input.ExpressionAttributeNames, KeyOf(t, input.Key))) ==>
+//@                result1 != nil && typeis(result1, "*mtypes.baseError") && result1.(*mtypes.baseError).code == "ConditionalCheckFailedException"
+//@   ensures[C05] input.ConditionExpression != nil && *input.ConditionExpression != "" && result1 == nil ==>
+//@                old(CondHoldsD(t, input.ConditionExpression, input.ExpressionAttributeValues, input.ExpressionAttributeNames, KeyOf(t, input.Key)))
+//@   aborts[C08] Unchanged(t)
+//@   loop 1:
+//@     invariant dom(aliases) == visited && fresh(aliases) && mapsUnchanged("map[string]string")
+//@     invariant forall name string :: {aliases[name]} name in visited ==> aliases[name] == strDeref(old(vals(input.ExpressionAttributeNames)), heapOf("P$string"))[name]
+//@   loop 2:
+//@     invariant TInv0(t) && IOwn(t) && content(t.AttributesDef) == old(content(t.AttributesDef))
+//@     invariant !(old(KeyOf(t, input.Key)) in t.Data)
+//@     invariant forall n string :: {t.Indexes[n]} n in t.Indexes ==> arr(t.Indexes[n].sortedKeys) == old(arr(t.Indexes[n].sortedKeys)) || fresh(arr(t.Indexes[n].sortedKeys))
+//@     invariant forall n string :: {t.Indexes[n]} n in t.Indexes ==> IWf(t.Indexes[n])
+//@     invariant forall n string :: {t.Indexes[n]} n in t.Indexes && n in visited ==> IMirror(t.Indexes[n], t)
+//@     invariant forall n string :: {t.Indexes[n]} n in t.Indexes && !(n in visited) ==> IMirrorExcept(t.Indexes[n], t, old(KeyOf(t, input.Key)))
+//@     invariant input.ConditionExpression != nil && *input.ConditionExpression != "" ==>
+//@               old(CondHoldsD(t, input.ConditionExpression, input.ExpressionAttributeValues, input.ExpressionAttributeNames, KeyOf(t, input.Key)))
